@@ -368,6 +368,8 @@ func GenSingle(t *rapid.T, op string, cfg SingleCfg) Program {
 	s.p.Nodes = []Node{n}
 	s.p.Disturb = rapid.IntRange(0, 3).Draw(t, "disturb") == 0
 	s.p.UseResult = rapid.IntRange(0, 3).Draw(t, "useresult") == 0
+	s.p.RejectFirst = rapid.IntRange(0, 3).Draw(t, "rejectfirst") == 0
+	s.p.NoOpBP = rapid.IntRange(0, 5).Draw(t, "noopbp") == 0
 	return s.p
 }
 
